@@ -133,6 +133,14 @@ def run_unit(unit, rng, ctx):
             d2 = np.asarray(traj.drift(**other))
             c2 = np.asarray(traj.apply_drift_correction(**other).positions)
             ctx.check(d2.shape == drift.shape and float(np.abs(np.nan_to_num(d2 - drift, nan=1.0)).max()) <= 1e-12 and float(geom.circ_diff(c2, cp).max()) <= 1e-9, f'{what}{tag}: {kwargs} and {other} are not equivalent', {'names': names})
+        # the same trajectory asked for the drift of ANOTHER reference set answers for that set
+        sym_x = symbols[int(rng.integers(len(symbols)))]
+        ref_x = np.array([n_ == sym_x for n_ in names])
+        steps_x = np.diff(Uin, axis=0, prepend=Uin[:1])
+        want_x = steps_x[:, ref_x].mean(axis=1, keepdims=True)
+        got_x = np.asarray(traj.drift(fixed_species=sym_x))
+        ctx.check(got_x.shape == want_x.shape and float(np.abs(np.nan_to_num(got_x - want_x, nan=1.0)).max()) <= 1e-9, f'{what}{tag}: a further drift(fixed_species={sym_x!r}) on the same trajectory is not the mean displacement of {sym_x}', {'names': names})
+        ctx.count('further_drift_query_with_another_reference_set')
         return cd
 
     cd0 = run(U, '')
